@@ -167,12 +167,13 @@ pub fn c02_def() -> PropDef {
     PropDef {
         id: "C02",
         level: "exploration",
-        rule: crate::props::universal::with_rule("proptest (cfg: committee 4..7, stake profile, keys, which authority is the real node, scheduler seed; tape: script) -> solo rig, 'chains' and 'mixed' profiles: puppets holding >= quorum craft certified chains with round gaps (TC-justified or not), forks on older parents, orphaned certified blocks, children-first delivery answered through the sync path promptly / late / never, interleaved with timeouts and rounds led by the real node. Oracle on the node's commit channel D1,D2,...: D1's parent is the genesis placeholder, D(i+1).parent = digest(D(i)), no D(i) is the placeholder (round 0 / default author), no digest twice. Non-trivial: a commit whose ancestor walk ran (a committed block whose round is more than one above the previously committed round) or >= 3 commits after a fork/gap step; distinct by the node's output/commit sequence hash."),
+        rule: crate::props::universal::with_rule("proptest (cfg: committee 4..7, stake profile, keys, which authority is the real node, scheduler seed; tape: script) -> solo rig, 'chains' and 'mixed' profiles: puppets holding >= quorum craft certified chains with round gaps (TC-justified or not), forks on older parents, orphaned certified blocks, children-first delivery answered through the sync path promptly / late / never, interleaved with timeouts and rounds led by the real node. Oracle on the node's commit channel D1,D2,...: D1's parent is the genesis placeholder, D(i+1).parent = digest(D(i)), no D(i) is the placeholder (round 0 / default author), no digest twice. (lagging-application) a straight certified chain of 1 020..1 140 blocks (the node's own rounds skipped through a TC) is delivered while the harness task that plays the application reads nothing from the commit channel (capacity 1 000 in node.rs), then it resumes: the deliveries must be exactly the committed prefix of the chain, in order. Non-trivial: a commit whose ancestor walk ran (a committed block whose round is more than one above the previously committed round) or >= 3 commits after a fork/gap step; distinct by the node's output/commit sequence hash."),
         assumptions: &["consensus nodes are not restarted (the code does not persist voting state; no listed property quantifies over restarts)"],
         parts: vec![
             part("chains", 20_000, 400_000, |c, x| c02_run(c, x, Profile::Chains)),
             part("mixed", 8_000, 150_000, |c, x| c02_run(c, x, Profile::Mixed)),
             crate::props::universal::c02_part(),
+            Part { name: "lagging-application", cfg_len: 1, tape_max: 8, quick: 16, thorough: 320, max_shrink_iters: 3, run: c02_lagging_run },
         ],
     }
 }
@@ -948,4 +949,118 @@ fn c20_run(case: &Case, _ctx: &Ctx) -> Outcome {
 
 pub fn c04_part() -> Part {
     crate::props::noninterference::part()
+}
+
+
+/// C02, lagging application: a straight certified chain of more than a thousand blocks (rounds led by
+/// the node itself are skipped through a TC) is delivered while the harness task that plays the
+/// application does not read the commit channel (capacity 1 000 in node.rs); then it resumes. Every
+/// block the chain commits must come out, once, parent-linked, in order.
+fn c02_lagging_run(case: &Case, _ctx: &Ctx) -> Outcome {
+    use crate::rig::{self, Conns, Inbox, NodeParams, SharedInbox};
+    use crate::sim::{self, ms, us, Ev, RigPolicy};
+    use crate::tape::Tape;
+    use crate::world::World;
+    use consensus::{Block, ConsensusMessage, QC};
+    use crypto::{Digest, Hash as _};
+    use network::simnet::{self, ConnectDecision, FrameDecision};
+    use std::sync::{Arc, Mutex};
+    let mut t = Tape::new(&case.tape);
+    let w = World::new(&[1, 1, 1, 1], t.below(4) as u64);
+    let sut = t.below(4);
+    let len = 1_020 + t.range(0, 120) as usize;
+    let dir = sim::scratch_dir("lagging");
+    let _g = sim::ScratchGuard(dir.clone());
+    let params = NodeParams::default();
+    let sut_id = sut as u32 + 1;
+    let (w2, dir2) = (&w, dir.clone());
+    let chain: Vec<Block> = sim::run_sim(case.cfg.first().copied().unwrap_or(0) as u64 ^ 0x1a66, || async move {
+        simnet::install(Box::new(RigPolicy {
+            on_connect: Box::new(|_, _| ConnectDecision::Accept(us(0))),
+            on_frame: Box::new(|_, _| FrameDecision::Deliver(us(200))),
+            on_delivered: None,
+        }));
+        let inbox: SharedInbox = Arc::new(Mutex::new(Inbox::default()));
+        let puppets: Vec<usize> = (0..w2.n).filter(|i| *i != sut).collect();
+        for p in &puppets {
+            rig::start_puppet(*p, inbox.clone()).await;
+        }
+        rig::set_commit_drain_paused(true);
+        rig::start_real_node(w2, sut, &dir2, &params).await;
+        tokio::time::sleep(ms(3)).await;
+        let mut conns = Conns::default();
+        let mut chain: Vec<Block> = Vec::new();
+        let mut round = 1u64;
+        while chain.len() < len {
+            let mut tc = None;
+            while w2.leader(round) == sut {
+                let prev_round = chain.last().map_or(0, |b: &Block| b.round);
+                let e: Vec<(usize, u64)> = puppets.iter().map(|i| (*i, prev_round)).collect();
+                tc = Some(w2.tc(round, &e));
+                round += 1;
+            }
+            let qc = match chain.last() {
+                Some(b) => w2.qc(b, &puppets),
+                None => QC::genesis(),
+            };
+            let author = w2.leader(round);
+            let b = w2.block(author, round, qc, tc, Vec::new());
+            let _ = conns.consensus(author, sut, &ConsensusMessage::Propose(b.clone())).await;
+            chain.push(b);
+            round += 1;
+            tokio::time::sleep(us(150)).await;
+        }
+        tokio::time::sleep(ms(60)).await;
+        rig::set_commit_drain_paused(false);
+        tokio::time::sleep(ms(400)).await;
+        chain
+    });
+    rig::set_commit_drain_paused(false);
+    let log = sim::take_log();
+    let panics = sim::panics();
+    let mut out = Outcome::default();
+    out.sample = json!({"chain_blocks": len, "node": sut});
+    out.fingerprint = crate::tape::fnv(format!("{}|{}|{:?}", len, sut, case.tape).as_bytes());
+    if let Some(p) = panics.iter().find(|p| p.node == sut_id) {
+        out.violate(&format!("panic@{}", p.location), format!("the node panicked at {}: {}", p.location, p.message), json!({"chain_blocks": len}));
+        return out;
+    }
+    // what the chain commits: everything up to the last block that has a consecutive child which is certified
+    let mut last = None;
+    for j in 0..chain.len().saturating_sub(2) {
+        if chain[j + 1].round == chain[j].round + 1 {
+            last = Some(j);
+        }
+    }
+    let expected: Vec<Digest> = match last {
+        Some(j) => chain[..=j].iter().map(|b| b.digest()).collect(),
+        None => Vec::new(),
+    };
+    let delivered: Vec<(u64, Digest)> = log
+        .iter()
+        .filter_map(|e| match &e.ev {
+            Ev::Commit { node, block } if *node == sut_id => Some((block.round, block.digest())),
+            _ => None,
+        })
+        .collect();
+    let got: Vec<Digest> = delivered.iter().map(|(_, d)| d.clone()).collect();
+    if got != expected {
+        let first_diff = got.iter().zip(expected.iter()).position(|(a, b)| a != b).unwrap_or(got.len().min(expected.len()));
+        out.violate(
+            "lagging-application-misses-deliveries",
+            format!(
+                "the chain commits {} blocks; with the application reading nothing until the end the node handed over {} (first difference at position {}, delivered round there: {:?})",
+                expected.len(),
+                got.len(),
+                first_diff,
+                delivered.get(first_diff).map(|(r, _)| *r)
+            ),
+            json!({"chain_blocks": len, "expected": expected.len(), "delivered": got.len(), "delivered_rounds_around": delivered.iter().skip(first_diff.saturating_sub(3)).take(8).map(|(r, _)| *r).collect::<Vec<_>>()}),
+        );
+    }
+    out.nontrivial = expected.len() > 1_000;
+    if out.nontrivial {
+        out.class("more-commits-than-the-commit-channel-holds");
+    }
+    out
 }
